@@ -3,11 +3,71 @@
 package extractor
 
 import (
+	"github.com/markusmobius/go-domdistiller/internal/converter"
+	"github.com/markusmobius/go-domdistiller/internal/label"
 	"github.com/markusmobius/go-domdistiller/internal/stringutil"
+	"github.com/markusmobius/go-domdistiller/internal/webdoc"
 	"golang.org/x/net/html"
 )
 
 // VerifDocumentTitle is getDocumentTitle.
 func VerifDocumentTitle(root *html.Node, wc stringutil.WordCounter) string {
 	return getDocumentTitle(root, wc)
+}
+
+// VerifBlock is one text block: the Text elements it holds (by position among the Text
+// elements of the document) and the verdict on it.
+type VerifBlock struct {
+	Members   []int
+	IsContent bool
+	Title     bool
+}
+
+// VerifBlocksData: one pass of processDocument, stage by stage.
+type VerifBlocksData struct {
+	Groups  []int        // GroupNumber of every Text element, in document order
+	Initial [][]int      // blocks of CreateTextDocument
+	Final   []VerifBlock // blocks after the article extractor (filters merge and classify)
+	Flags   []bool       // IsContent of every Text element after ApplyToModel
+	Titles  []bool       // TITLE label of every Text element after ApplyToModel
+}
+
+// VerifBlocks runs createWebDocumentInfoFromPage and the steps of processDocument.
+func (ce *ContentExtractor) VerifBlocks(skipUnlikely bool) VerifBlocksData {
+	flags := converter.Default
+	if skipUnlikely {
+		flags = converter.SkipUnlikelies
+	}
+	doc := ce.createWebDocumentInfoFromPage(flags)
+	index := map[*webdoc.Text]int{}
+	var texts []*webdoc.Text
+	var d VerifBlocksData
+	for _, e := range doc.Elements {
+		if t, ok := e.(*webdoc.Text); ok {
+			index[t] = len(texts)
+			texts = append(texts, t)
+			d.Groups = append(d.Groups, t.GroupNumber)
+		}
+	}
+	members := func(tb *webdoc.TextBlock) []int {
+		out := []int{}
+		for _, t := range tb.TextElements {
+			out = append(out, index[t])
+		}
+		return out
+	}
+	td := doc.CreateTextDocument()
+	for _, tb := range td.TextBlocks {
+		d.Initial = append(d.Initial, members(tb))
+	}
+	NewArticleExtractor(ce.logger).Extract(td, ce.WordCounter, ce.candidateTitles)
+	for _, tb := range td.TextBlocks {
+		d.Final = append(d.Final, VerifBlock{Members: members(tb), IsContent: tb.IsContent(), Title: tb.HasLabel(label.Title)})
+	}
+	td.ApplyToModel()
+	for _, t := range texts {
+		d.Flags = append(d.Flags, t.IsContent())
+		d.Titles = append(d.Titles, t.HasLabel(label.Title))
+	}
+	return d
 }
